@@ -106,6 +106,13 @@ theorem lookup_gen_aliases (cfg : Cfg) (t : Ty) (h : wfTy t = true) : lookup "x-
     rw [gen.eq_def]
     simp only [lookup_append, lookup_ruleHead_aliases,
       lookup_consSchema_aliases _ _ cs h.1 (allowed_ne_aliases _ (scalarCons_sub p))]
+  | derived p m cs0 _ cs =>
+    rw [wfTy.eq_def] at h
+    simp only [Bool.and_eq_true] at h
+    rw [gen.eq_def]
+    simp only [lookup_append, lookup_ruleHead_aliases,
+      lookup_consSchema_aliases _ _ cs0 h.1.1.1 (allowed_ne_aliases _ (scalarCons_sub p)),
+      lookup_consSchema_aliases _ _ cs h.1.1.2 (allowed_ne_aliases _ (scalarCons_sub p))]
   | seq p m cs item =>
     rw [wfTy.eq_def] at h
     simp only [Bool.and_eq_true] at h
